@@ -15,6 +15,7 @@ class Session:
         self.resolved = []
         self.wouldblock = 0
         self.conf_callbacks = []
+        self.fopens = []
         self.responder = responder   # callable(session, kind, info) -> answer string for waiting events
         self.ex = kexec.Exec(exe, env=env, workdir=work, ev_handler=self.on_event)
         self.cmd = self.ex.cmd
@@ -58,6 +59,9 @@ class Session:
         if k == 'tcp_block':
             fd = int(kv['fd'])
             return self.responder(self, 'tcp_block', self.tcp[fd]) if self.responder else 'timeout'
+        if k == 'fopen':
+            self.fopens.append(kv.get('path'))
+            return None
         if k == 'conf_callback':
             self.conf_callbacks.append(toks[1] if len(toks) > 1 else '')
             return None
